@@ -527,6 +527,78 @@ func stepName(rr *runResult, k int) string {
 	return fmt.Sprintf("op%d", k)
 }
 
+// staleKeeper: phase two must address the branch the coordinator names, not whatever branch the connection it finds is
+// working on. T1 registers a branch whose XA START fails (the connection stays in the keeper under T1's identifier and goes
+// back to the pool); T2 then runs phase one on the same pooled connection; the coordinator's rollback of T1's branch arrives
+// before T2's phase two.
+func staleKeeper(r *rep.Run, version string) {
+	r.Eval(true)
+	e := envFor(version)
+	defer e.Close()
+	e.Bare.Exec(gen.S1.InsertSQL([]int{0, 1, 2}))
+	e.Srv.ClearJournal()
+	vtime.SetVirtual(func(d time.Duration) bool { return d < 20*time.Second })
+	defer vtime.SetPassThrough()
+	sys.TakeErrors()
+	loc := map[string]string{"scenario": "stale-keeper", "version": version}
+	fail := func(clause, detail string) {
+		r.Violate("stale-keeper/"+clause+"/"+version, "phase two uses the identifier of the branch the coordinator names", loc, detail+" | client errors: "+strings.Join(sys.TakeErrors(), " || "))
+	}
+	// T1: explicit local transaction whose XA START fails
+	armed := true
+	e.Srv.Fault = func(op memdb.Op) error {
+		if armed && strings.HasPrefix(strings.ToUpper(strings.TrimSpace(op.SQL)), "XA START") {
+			armed = false
+			return &mysql.MySQLError{Number: 1205, Message: "Lock wait timeout exceeded (injected)"}
+		}
+		return nil
+	}
+	var xid1 string
+	tm.WithGlobalTx(context.Background(), &tm.GtxConfig{Name: "c17-t1"}, func(ctx context.Context) error {
+		xid1 = tm.GetXID(ctx)
+		tx, err := e.XA.BeginTx(ctx, nil)
+		if err == nil {
+			tx.Rollback()
+			return fmt.Errorf("unexpected: BeginTx succeeded")
+		}
+		return err
+	})
+	e.Srv.Fault = nil
+	g1 := e.TC.Global(xid1)
+	if armed || g1 == nil || len(g1.Branches) == 0 {
+		r.Count("stale_keeper_not_applicable", 1)
+		return // the fault did not fire or the branch was never registered: nothing to test
+	}
+	id1 := ssql.XaIdBuild(xid1, uint64(g1.Branches[0].ID)).String()
+	// T2: phase one on the same handle (its branch stays prepared: the coordinator has not driven phase two yet)
+	var xid2 string
+	err2 := tm.WithGlobalTx(context.Background(), &tm.GtxConfig{Name: "c17-t2"}, func(ctx context.Context) error {
+		xid2 = tm.GetXID(ctx)
+		_, err := e.XA.ExecContext(ctx, "UPDATE t_s1 SET cnt = cnt + 1 WHERE id = ?", int64(1))
+		return err
+	})
+	g2 := e.TC.Global(xid2)
+	if err2 != nil || g2 == nil || len(g2.Branches) == 0 {
+		r.Count("stale_keeper_not_applicable", 1)
+		return
+	}
+	id2 := ssql.XaIdBuild(xid2, uint64(g2.Branches[0].ID)).String()
+	mark := e.Srv.JournalLen()
+	e.TC.BranchRollback(xid1, g1.Branches[0])
+	for _, j := range e.Srv.Journal()[mark:] {
+		if m := reXA.FindStringSubmatch(j.SQL); m != nil && m[2] != id1 {
+			fail("other-branch-addressed", fmt.Sprintf("the coordinator asked to roll back %s; the client sent %q (T2's branch is %s)", id1, j.SQL, id2))
+			return
+		}
+	}
+	st := e.TC.DriveCommit(xid2)
+	if len(st) != 1 || st[0] != int(branch.BranchStatusPhasetwoCommitted) {
+		// T2's own phase two after a foreign rollback request: on the unmodified tree the connection is shared between the two
+		// keeper entries; whether T2 can still commit is the known XA life-cycle finding, not this clause
+		r.Count("stale_keeper_t2_commit_not_committed", 1)
+	}
+}
+
 // identifiers: the mapping (xid, branch id) -> XA identifier is injective on the catalogue and stable.
 func checkIdentifiers(r *rep.Run) {
 	xids := []string{"", "a", "192.168.0.1:8091:2001", "192.168.0.1:8091:20011", "x-1", "x", "x-", "世界:1", strings.Repeat("k", 200), "a:b:c-7-7"}
@@ -571,6 +643,9 @@ func Run(r *rep.Run) {
 	shard, nshards, worker := rep.Shard()
 	if !worker {
 		checkIdentifiers(r)
+		for _, v := range []string{"8.0.28", "8.0.29"} {
+			staleKeeper(r, v)
+		}
 		rep.RunSharded(r, 8, 20*time.Minute)
 		return
 	}
